@@ -1,14 +1,24 @@
-// drv_ledger_eb.cpp — C19: ebpps_sketch::merge(const ebpps_sketch&) with an allocator and an item type that do not live
-// in namespace std (finding ebpps_lvalue_merge_custom_alloc: the unqualified swap at ebpps_sketch_impl.hpp:205 is only
-// found by ADL through std).  Kept apart from drv_ledger.cpp so that this compile-time defect does not take the whole
-// harness down.  Prints "OK live_items live_bytes flags" after merging in both size orders and destroying everything.
+// drv_ledger_eb.cpp — C19: members of allocator-aware types that do not compile / link with a user allocator, kept apart from
+// drv_ledger.cpp so that a compile-time defect does not take the whole harness down.  Built three times by checks/C19.py:
+//   -DEB_PART=1  ebpps_sketch::merge(const ebpps_sketch&) with an item type and allocator outside namespace std
+//                (unqualified swap, ebpps_sketch_impl.hpp:205; finding ebpps_lvalue_merge_custom_alloc)
+//   -DEB_PART=2  var_opt_union::operator=(const var_opt_union&) (swap with the const argument, var_opt_union_impl.hpp:82;
+//                finding var_opt_union_copy_assign_does_not_compile)
+//   -DEB_PART=3  count_min_sketch::get_allocator() (declared, never defined; finding count_min_get_allocator_undefined)
+// Each part prints "OK live_items live_bytes flags" after exercising the member with the tracking allocator and destroying everything.
 #include "ledger_track.hpp"
 #include "ebpps_sketch.hpp"
+#include "var_opt_union.hpp"
+#include "count_min.hpp"
 #include <cstdio>
 using namespace datasketches;
-typedef ebpps_sketch<vl::Item, vl::talloc<vl::Item>> eb_t;
+#ifndef EB_PART
+#define EB_PART 1
+#endif
 int main() {
+#if EB_PART == 1
   {
+    typedef ebpps_sketch<vl::Item, vl::talloc<vl::Item>> eb_t;
     eb_t a(4, vl::talloc<vl::Item>(1)), b(4, vl::talloc<vl::Item>(2));
     for (int i = 0; i < 20; ++i) { vl::Item x(i); a.update(x, 1.0); }
     for (int i = 0; i < 50; ++i) { vl::Item x(100 + i); b.update(x, 2.0); }
@@ -16,8 +26,34 @@ int main() {
     b.merge(a);            // smaller or equal: plain branch
     eb_t c(a);
     c.merge(b);
-    if (a.get_n() != 70 || b.get_n() != 120 || c.get_n() != 190) { printf("BAD n %llu %llu %llu\n", (unsigned long long)a.get_n(), (unsigned long long)b.get_n(), (unsigned long long)c.get_n()); return 1; }
+    if (a.get_n() != 70 || b.get_n() != 120 || c.get_n() != 190) { printf("BAD n\n"); return 1; }
   }
+#elif EB_PART == 2
+  {
+    typedef var_opt_sketch<vl::Item, vl::talloc<vl::Item>> vo_t;
+    typedef var_opt_union<vl::Item, vl::talloc<vl::Item>> vou_t;
+    vou_t a(32, vl::talloc<vl::Item>(1)), b(8, vl::talloc<vl::Item>(2));
+    vo_t s(64, resize_factor::X2, vl::talloc<vl::Item>(3));
+    for (int i = 0; i < 40; ++i) { vl::Item x(i); s.update(x, 1.0 + i % 3); }
+    a.update(s);
+    b = a;                 // copy assignment across arenas
+    a = a;                 // self-assignment
+    b.update(s);
+    vo_t r1 = a.get_result(), r2 = b.get_result();
+    if (r1.get_n() != 40 || r2.get_n() != 80) { printf("BAD n\n"); return 1; }
+  }
+#else
+  {
+    typedef count_min_sketch<uint64_t, vl::talloc<uint64_t>> cm_t;
+    cm_t a(3, 64, 9001, vl::talloc<uint64_t>(2));
+    for (uint64_t i = 0; i < 100; ++i) a.update(i, 2);
+    vl::talloc<uint64_t> al = a.get_allocator();
+    if (al.arena != 2) { printf("BAD arena %d\n", al.arena); return 1; }
+    auto bytes = a.serialize();
+    cm_t b = cm_t::deserialize(bytes.data(), bytes.size(), 9001, a.get_allocator());
+    if (b.get_total_weight() != a.get_total_weight()) { printf("BAD weight\n"); return 1; }
+  }
+#endif
   vl::State& s = vl::st();
   printf("OK %ld %ld %x\n", s.live_items, s.live_bytes, s.flags & ~(unsigned)vl::F_MOVE_FROM_MOVED);
   return (s.live_items == 0 && s.live_bytes == 0 && (s.flags & ~(unsigned)vl::F_MOVE_FROM_MOVED) == 0) ? 0 : 1;
